@@ -89,7 +89,7 @@ pub fn gen_flat_doc(rng: &mut Rng, size: usize, hermes: bool) -> Value {
     let neg = rng.chance(1, 4);
     let text = gen_mappings(rng, nseg, nsrc, nnm, neg);
     let sources: Vec<Value> = (0..nsrc).map(|_| if rng.chance(1, 8) { json!([]) } else { json!([if rng.chance(1, 3) { cps(&gen_src_name(rng)) } else { cps(*rng.pick(SRC_POOL)) }]) }).collect();
-    let names: Vec<Value> = (0..nnm).map(|_| if rng.chance(1, 6) { json!({"n": rng.below(100000)}) } else if rng.chance(1, 8) { json!({"lit": *rng.pick(NUM_LITS)}) } else { json!({"s": rng.pick(NAME_POOL)}) }).collect();
+    let names: Vec<Value> = (0..nnm).map(|_| if rng.chance(1, 10) { json!({"raw": *rng.pick(&["null", "true", "{}", "[1]"])}) } else if rng.chance(1, 6) { json!({"n": rng.below(100000)}) } else if rng.chance(1, 8) { json!({"lit": *rng.pick(NUM_LITS)}) } else { json!({"s": rng.pick(NAME_POOL)}) }).collect();
     let mut d = json!({"version": [3], "sources": [sources], "names": [names], "mappings": [text]});
     if rng.chance(1, 2) { d["root"] = json!([if rng.chance(1, 3) { cps(&gen_root_name(rng)) } else { cps(*rng.pick(ROOT_POOL)) }]); }
     if rng.chance(1, 2) { d["file"] = json!([{"s": rng.pick(NAME_POOL)}]); }
@@ -100,7 +100,7 @@ pub fn gen_flat_doc(rng: &mut Rng, size: usize, hermes: bool) -> Value {
         d["contents"] = json!([(0..n).map(|_| if rng.chance(1, 3) { json!([]) } else if rng.chance(1, 6) { json!([gen_content(rng)]) } else { json!([rng.pick(NAME_POOL)]) }).collect::<Vec<_>>()]);
     }
     if rng.chance(1, 4) && nsrc > 0 {
-        d["ignore"] = json!([(0..rng.below(3)).map(|_| rng.below(nsrc)).collect::<Vec<_>>()]);
+        d["ignore"] = json!([(0..rng.below(3)).map(|_| if rng.chance(1, 5) { nsrc + rng.below(3) } else { rng.below(nsrc) }).collect::<Vec<_>>()]);
     }
     if rng.chance(1, 5) {
         // rangeMappings unrelated to the segment counts: up to 14 digits (84 bits) per line, empty lines, extra lines
@@ -160,6 +160,8 @@ pub fn gen_index_doc(rng: &mut Rng, size: usize, depth: usize) -> Value {
     }
     let mut d = json!({"version": [3], "sections": [secs]});
     if rng.chance(1, 2) { d["file"] = json!([{"s": "bundle.js"}]); }
+    // the marker key of ANOTHER document kind next to "sections" (sections decide: it stays an index map)
+    if rng.chance(1, 8) { d["xfs"] = json!([[[]]]); }
     d
 }
 
